@@ -314,9 +314,10 @@ class AM:
         optz = lambda x: "None" if x is None else "(Some (%d)%%Z)" % x
         on = cl("(%s, %s)" % (cq(k), cl(self.trans_coq(t) for t in ts)) for k, ts in n.on)
         after = cl("(%d, %s)" % (int(d), cl(self.trans_coq(t) for t in ts)) for d, ts in n.after)
-        inv = cl("(mkI %s %d %s %s %d %s (%d)%%Z)" % (cq(v.iid), v.src, cl(self.trans_coq(t) for t in v.ondone),
-                                                      cl(self.trans_coq(t) for t in v.onerror), v.dur,
-                                                      "true" if v.ok else "false", v.val) for v in n.invoke)
+        inv = cl("(mkI %s %d %s %s %d %s (%d)%%Z %s)" % (cq(v.iid), v.src, cl(self.trans_coq(t) for t in v.ondone),
+                                                         cl(self.trans_coq(t) for t in v.onerror), v.dur,
+                                                         "true" if v.ok else "false", v.val,
+                                                         "true" if v.machine else "false") for v in n.invoke)
         ondone = "None" if n.ondone is None else "(Some %s)" % self.trans_coq(n.ondone)
         return "(mkN %s %s %s %s %s %d %s %s %s %s %s %s %s %s)" % (
             cq(self.sid(i)), opt(n.parent), kind, cl(str(c) for c in n.children), opt(n.initial), self.depth(i),
